@@ -253,6 +253,22 @@ class SymEnv(object):
     def note(self, s):
         self.c.notes.append(s)
 
+    def concrete_rng(self, seed):
+        """default RNG = deterministic concrete bytes (where the property is not about randomness)"""
+        from vlib.pysym import natives
+        if seed is None:
+            natives.Tape.provider = None
+            return
+        import random
+        r = random.Random(seed)
+        natives.Tape.provider = lambda n: bytes(r.getrandbits(8) for _ in range(n))
+
+    def opaque_decryption(self, on):
+        """block-cipher decryption returns zero blocks (stated cut: what a wrong key decrypts to is
+        arbitrary; the structure parsing before decryption is what the harness explores)"""
+        from vlib.pysym import natives
+        natives.CIPHER_OVERRIDE = (lambda name, key, block, dec: [0] * len(block)) if on else None
+
 
 class ConcEnv(object):
     sym = False
@@ -351,6 +367,12 @@ class ConcEnv(object):
         pass
 
     def note(self, s):
+        pass
+
+    def concrete_rng(self, seed):
+        pass
+
+    def opaque_decryption(self, on):
         pass
 
 
